@@ -332,6 +332,37 @@ def wkc_sites():
     return sorted(set(sites))
 
 
+def registers():
+    """src/register.rs: the RegisterAddress enum, every variant with its explicit discriminant."""
+    rel = "src/register.rs"
+    txt = strip_comments(open(os.path.join(REPO, rel)).read())
+    m = re.search(r"pub\s+enum\s+RegisterAddress\s*\{", txt)
+    if not m:
+        raise Refuse("enum RegisterAddress not found in " + rel)
+    i = m.end() - 1
+    depth, j = 0, i
+    while True:
+        if txt[j] == "{":
+            depth += 1
+        elif txt[j] == "}":
+            depth -= 1
+            if depth == 0:
+                break
+        j += 1
+    body = txt[i + 1:j]
+    out = []
+    for part in body.split(","):
+        part = part.strip()
+        if not part:
+            continue
+        part = re.sub(r"#\[[^\]]*\]", "", part).strip()
+        mm = re.match(r"^(\w+)\s*=\s*(0x[0-9a-fA-F_]+|\d[\d_]*)\s*(u16)?$", part)
+        if not mm:
+            raise Refuse(f"RegisterAddress variant not understood: {part[:60]!r}")
+        out.append((mm.group(1), int(mm.group(2).replace("_", ""), 0)))
+    return out
+
+
 def wake_order():
     """The order of the two pairs of steps the no-lost-wake-up argument rests on, read off the
     source text: in ReceiveFrameFut::poll the waker is registered BEFORE the RxDone check; in
@@ -421,6 +452,19 @@ def main():
           "Definition done_before_wake : bool := %s." % ("true" if df else "false")]
     changed4 = write_if_changed(os.path.join(OUT, "WakeOrder.v"), "\n".join(wo) + "\n")
     changed = changed or changed4
+    try:
+        regs = registers()
+    except Refuse as e:
+        print(f"src2coq: REFUSED: {e}")
+        sys.exit(2)
+    rl = ["(* GENERATED by tools/src2coq.py from /repo's working tree -- do not edit *)",
+          "From Coq Require Import String List NArith.", "Import ListNotations.", "Local Open Scope N_scope.", "",
+          "(* src/register.rs: RegisterAddress *)"]
+    for name, v in regs:
+        rl.append(f"Definition reg_{name} : N := {v}.")
+    rl.append("Definition src_registers : list (string * N) :=\n  [%s]." % ";\n   ".join('("%s"%%string, %d)' % r for r in regs))
+    changed5 = write_if_changed(os.path.join(OUT, "SrcRegisters.v"), "\n".join(rl) + "\n")
+    changed = changed or changed5
     summary = {"structs": len(structs), "enums": len(enums), "wkc_optout_sites": len(ws),
                "implicit_enums": [e["name"] for e in enums if any(v["disc"] is None and not v["catch"] for v in e["variants"])],
                "consts": len(cs), "changed": bool(changed or changed2)}
